@@ -6,8 +6,8 @@ _RW = {"middleware/cache": ["time"], "middleware": ["time"], "internal/dnsutil":
 CHECK = {
     "level": "model_checking",
     "engines": ["space"],
-    "technique": "explicit-state BFS over failing/succeeding/request-local-failing resolution, zone-failure and clock-advance histories on the real cache pipeline (virtual clock), lock-step against a reference back-off automaton; whole lookup alphabet probed after every event",
-    "level_text": "Every history (depth 4 quick / 6 thorough) over asks of 5 questions with upstream outcome {SERVFAIL, success, attempt-limit, cancellation, best-effort branch, work-budget exhaustion}, authority-zone failure reports/clears and clock advances around min, 2*min, max is replayed on a fresh real Cache; after every event 38 probe questions (same/other case, sibling, descendant, label-boundary near-miss, parent, other type/CD/class/ECS audience) are looked up side-effect-free on the message, wire and Store.Get lookups and judged against the reference: a cached-failure answer is legal only if an exact-partition failure or an ancestor-zone failure was recorded and its window (min * 2^(k-1) capped at max <= 5 min, k = consecutive upstream-observed failures since the last success) is still open; request-local failures never create state; rfc9520=off never serves or records.",
+    "technique": "explicit-state BFS over failing/succeeding/request-local-failing resolution, zone-failure and clock-advance histories on the real cache pipeline (virtual clock), lock-step against a reference back-off automaton; whole lookup alphabet probed after every event; event-order exploration of the real groupLookup/singleflight/lookup path followed by the real handleLookupError tail, with a recording failure store",
+    "level_text": "Every history (depth 4 quick / 6 thorough) over asks of 5 questions with upstream outcome {SERVFAIL, success, attempt-limit, cancellation, best-effort branch, work-budget exhaustion}, authority-zone failure reports/clears and clock advances around min, 2*min, max is replayed on a fresh real Cache; after every event 38 probe questions (same/other case, sibling, descendant, label-boundary near-miss, parent, other type/CD/class/ECS audience) are looked up side-effect-free on the message, wire and Store.Get lookups and judged against the reference: a cached-failure answer is legal only if an exact-partition failure or an ancestor-zone failure was recorded and its window (min * 2^(k-1) capped at max <= 5 min, k = consecutive upstream-observed failures since the last success) is still open; request-local failures never create state; rfc9520=off never serves or records. sharedlookup: every order of {authority j starts answering, the short budget's deadline instant passes, a caller's Done() closes, a follower arrives, the capacity-slot holder is answered} for 1-2/3 callers x 2/3 authorities of which at least one answers NOERROR, with a short budget or a capacity limit of 1: after each failed groupLookup the caller runs the real handleLookupError; no zone failure may reach the shared store (an authority of the zone is usable: only a client's own budget or a capacity refusal ended the lookup).",
     "level_note": "Trusted: the reference automaton (upper bound on the suppression window; shorter windows are accepted); the stub stands in for resolver/failover as the source of SERVFAIL and of request-local marks; single-probe election after expiry is explored in C11's dedup unit, capacity eviction only at size 64.",
     "rule": "state = reference keys (streak, seconds left) + the implementation's own failure entries (streak, seconds left); 'nontrivial' = states in which the implementation retains at least one failure entry",
     "assumptions": ["virtual clock moves forward only; real elapsed time inside one history is far below 1 s"],
@@ -20,6 +20,12 @@ CHECK = {
                  "harness": {"middleware/cache": ["zz_verif_c13conc_test.go"]},
                  "rewrite": {"internal/cache": ["sync", "sync/atomic"]}, "stub_tests": ["middleware/cache"],
                  "race_pass": True, "gomaxprocs": 1, "budget_s": {"quick": 60, "thorough": 420}},
+        # a client's own deadline must not surface as an authority failure through a shared lookup: the C11 lookup
+        # exploration (every event order on the real groupLookup/singleflight/lookup path + the real handleLookupError
+        # tail of resolve()), restricted to scenarios with a NOERROR authority and a short budget or a capacity limit
+        "sharedlookup": {"pkg": "middleware/resolver", "run": "TestVerifC13Lookup",
+                         "harness": {"middleware/resolver": ["zz_verif_c11lk_*_test.go"]}, "gomaxprocs": 2,
+                         "budget_s": {"quick": 40, "thorough": 300}},
         # the resolver's side: which zone failures (and request-local failures) become shared state, against authsim
         "zone": {"pkg": "internal/verifshim/h_c13", "run": "TestVerifC13Zone",
                  "doc": "real default chain against authsim zones with 1..4 name servers; every assignment of per-server behaviour {healthy, healthy-but-slow 150 ms, SERVFAIL, REFUSED, drop, garbage} for 1..3 servers (quick; + the '3 lame fast + 1 healthy (slow)' family) / 1..4 servers (thorough, 1296 + qmin variants); after the client query the cache handler's RFC 9520 failure store is listed (export seam) and probed by a follow-up for another name of the zone and one for a sibling zone. Oracle: a zone entry may exist only for a zone none of whose servers gives a usable response, and never for another zone; with a usable server the follow-up is not answered from a cached failure; the sibling is never affected; enforce-mode budget exhaustion (every MaxOutboundQueries 1..8, MaxInternalQueries 1..3), a client context cancelled after 1/30/100/250 ms and a 40/100 ms query deadline record neither question nor zone failures; failing AAAA answers seen only by the detached IPv6 enrichment record nothing; failure -> expiry (1 s initial back-off, waited on observed state) -> useful answer -> failure starts again at streak 1. Server order pinned through authority.randN; violations re-run 3x, disturbed runs repeated.",
